@@ -36,17 +36,19 @@ CLAIMED['C17'] = dict(
     technique='snapshot/differential exploration of all public calls across hash seeds and processes + Coq theorems on set-iteration-order independence',
 )
 CLAIMED['C20'] = dict(
-    category='exploration',
-    text='The tool (python -m penman, real subprocesses for 1 case in 8, penman.__main__.main() in workers for the rest) is compared byte-for-byte '
-         'and by exit status with an independent reference pipeline written from docs/command.rst over random option subsets x models x '
-         'stdin/files; second-pass byte idempotence for stable option sets; content preservation without normalisation options; '
-         'formatting options never change content.',
+    category='proof',
+    text='Coq theorems about a model of the command\'s plumbing (main, process with the shared first-flag state, _process_in/_check/_process_out, _make_sort_key through '
+         'key tables PINNED from the current source): it equals the documented per-tree pipeline — one output graph per input graph in order, blank-line framing, n files = '
+         'their concatenation (F18), exit status iff --check finds errors, failure iff a stage, a parse or a key lookup fails; formatting options do not change the formatted '
+         'tree, its tokens or the status; byte idempotence is proved for streams with no normalisation option and for --canonicalize-roles alone, and reduced to a per-tree '
+         'fixed point for every other non-triples option set. The tool itself (real subprocesses + main() in workers) is compared byte-for-byte and by exit status with the '
+         'extracted model AND with an independent reference pipeline written from docs/command.rst, plus second-pass idempotence, content and format-invariance oracles.',
     design_ref='DESIGN.md §5 C20',
-    note=TB + ' argparse, files, encodings and stdout are outside any model; idempotence is checked under C10\'s proviso (no constant spelled like a new variable) '
-         'and for well-formed input (distinct triples).',
-    technique='differential exploration: CLI vs documented library pipeline, second-pass idempotence (Coq model of the CLI plumbing to follow)',
+    note=TB + ' partial: idempotence of option sets containing --reify-edges/--dereify-edges/--reify-attributes/--rearrange/--make-variables is covered only by the oracle '
+         '(3000 runs quick, 40000 thorough) — its two exceptions are the open known findings F30 and F32; the model starts after argparse (-q/-v, encodings, file I/O, the random key '
+         'are outside; on failing runs only "fails" is compared); idempotence is checked under C10\'s proviso (no constant spelled like a new variable) and for well-formed input.',
+    technique='Coq proof (CLI plumbing = documented pipeline; pinned key tables) + differential correspondence with python -m penman + reference-pipeline and idempotence oracles',
 )
-
 CLAIMED['C04'] = dict(
     category='proof',
     text='Coq theorem (closed under the global context): for EVERY tree and EVERY model the Gallina mirror of layout.interpret equals an '
@@ -165,7 +167,7 @@ CLAIMED['C02'] = dict(
          'never entered; supporting theorems: interpret = accumulator-free entries, the single pass consumes exactly each subtree\'s segment with every Push fresh, '
          'build reads the store back. wf_layout_tree is tight on ~190k sampled non-wf trees.',
     design_ref='DESIGN.md §5 C02',
-    note=TB + ' the text-level clause encode(decode(s)) = normal-form text is checked by the oracle (three indents), not composed with C01 in Coq; alignment suffixes '
+    note=TB + ' the string-level clause is ALSO a theorem (Properties/E2E.v: E2E_C02_encode_decode, E2E_C02_text_fixpoint: encode(decode(s)) = format(drop_empty_concepts(parse s)) and that text is a fixed point); alignment suffixes '
          'must be in the printer\'s normal form (~e.01 is re-printed ~e.1: counted, not flagged); quick = 106k model/implementation cases x {default, live AMR, no-op, '
          'mini-AMR, random tables}, Python twin of wf_layout_tree cross-checked against the extracted Coq predicate on every case.',
     technique='Coq proof (segment invariant of the single-pass configurer by nested tree induction) + differential correspondence + layout/text oracle',
@@ -188,8 +190,8 @@ CLAIMED['C03'] = dict(
          'node per variable (T2); the formatter omits an atom only if it is None or the empty string (0, 0.0 and a 0 concept are written). The decode half of the round '
          'trip is checked by the oracle and a whole-pipeline model/implementation correspondence.',
     design_ref='DESIGN.md §5 C03',
-    note=TB + ' the content theorem is stated on the branch multiset of the configured tree; composing it with the C01 text round trip and the C04 reading theorem to '
-         'graph_eq(decode(encode g), g) is not done in Coq; numbers are modelled by text + truthiness; the no-op model is outside the content clause (N9); '
+    note=TB + ' the END-TO-END statement is a theorem too (Properties/E2E.v: E2E_C03_decode_encode: encode succeeds and decode of the text is graph_eq to the re-topped graph, numbers compared by text) '
+         'for graphs whose epidata holds only Push/POP markers (alignment markers: T2 is proved under layout_only) with lexable atoms and well-formed metadata; numbers are modelled by text + truthiness; the no-op model is outside the content clause (N9); '
          'quick = every wf connected graph over <= 3 variables x every permutation x every top + random larger ones (0.88M evaluations).',
     technique='Coq proof (termination measure, placed+remaining multiset invariant, completeness of the fallback loop) + bounded-exhaustive differential correspondence + encode/decode oracle',
 )
@@ -200,7 +202,7 @@ CLAIMED['C06'] = dict(
          'per variable, requested root (T2); success holds exactly when every triple is connected to the top (T3 + converse; a bad top gives the layout error); the content '
          'is independent of the markers.',
     design_ref='DESIGN.md §5 C06',
-    note=TB + ' hypotheses: roles carry their colon (guaranteed by the Graph constructor), Push markers name variables (N3), deinverting model with canonical roles for the '
+    note=TB + ' Properties/E2E.v packages T3 and its converse as ONE iff at configure and at encode level (E2E_C06_error_iff, E2E_C06_encode_error_iff; reach decided by a verified saturation procedure); hypotheses: roles carry their colon (guaranteed by the Graph constructor), Push markers name variables (N3), deinverting model with canonical roles for the '
          'content clauses; encode = format after configure and the decode half are covered by the oracle; quick = 2.0M graphs incl. an EXHAUSTIVE family (6 marker lists per '
          'triple on all wf connected graphs with <= 3 triples over 2 variables, every order/top/model) + random corruptions of decoded, pickled and deep-copied graphs + arbitrary ill-formed triple lists.',
     technique='Coq proof (lexicographic termination measure, store invariants, connectivity <-> success) + exhaustive-family differential correspondence + totality/content oracle',
